@@ -224,6 +224,26 @@ Example keep_rows_dangling_ex :
   keep_rows d_mutations ex_mut [false; true; true; true; true] = Err TSK_ERR_KEEP_ROWS_MAP_TO_DELETED.
 Proof. vm_compute. reflexivity. Qed.
 
+(* the theorems make no assumption on the order of references: an UNSORTED table in which
+   row 0 refers forward to row 2 (and row 2 back to row 1) *)
+Definition ex_mut_unsorted : tbl :=
+  fold_left (fun t r => match add_row d_mutations t r with Ok t' => t' | _ => t end)
+    [ ([0; 0; 5; 2], [[65]; []]); ([0; 1; 5; -1], [[67]; [1]]); ([1; 2; 5; 1], [[]; [2; 3]]); ([1; 3; 5; 0], [[71]; []]) ]
+    (init d_mutations 0).
+
+Example keep_rows_forward_reference_ex :
+  (* the kept child 0 sits BEFORE the first dropped row, its parent 2 is dropped: refused *)
+  keep_rows d_mutations ex_mut_unsorted [true; true; false; true] = Err TSK_ERR_KEEP_ROWS_MAP_TO_DELETED /\
+  (* dropping row 3 only: forward and backward references are renumbered *)
+  (do p <- keep_rows d_mutations ex_mut_unsorted [true; true; true; false]; Ok (snd p, WFb d_mutations (fst p), abs (fst p)))
+  = Ok ([0; 1; 2; -1], true,
+        [ ([0; 0; 5; 2], [[65]; []]); ([0; 1; 5; -1], [[67]; [1]]); ([1; 2; 5; 1], [[]; [2; 3]]) ]) /\
+  (* dropping row 1, to which row 2 refers back: refused; dropping rows 0 and 3: 2 -> 1, 1 -> 0 *)
+  keep_rows d_mutations ex_mut_unsorted [true; false; true; true] = Err TSK_ERR_KEEP_ROWS_MAP_TO_DELETED /\
+  (do p <- keep_rows d_mutations ex_mut_unsorted [false; true; true; false]; Ok (abs (fst p)))
+  = Ok [ ([0; 1; 5; -1], [[67]; [1]]); ([1; 2; 5; 0], [[]; [2; 3]]) ].
+Proof. repeat split; vm_compute; reflexivity. Qed.
+
 Example keep_rows_individuals_ex :
   (do p <- keep_rows d_individuals ex_tbl [true; false; true]; Ok (snd p, WFb d_individuals (fst p), abs (fst p)))
   = Err TSK_ERR_KEEP_ROWS_MAP_TO_DELETED /\
